@@ -15,7 +15,7 @@ from ..runner import Outcome, fail, open_features
 from ..strategies import Cfg, draw_dataset, chance, PROFILES
 from ..world import build_entities, CLASSES
 from ..build import declare_vars, build_cond
-from ..qcheck import ident, show_rows, var_domains, compare_lists
+from ..qcheck import ident, show_rows, var_domains, compare_lists, compare_sets
 
 from entity_query_language import an, entity, set_of, symbolic_mode, concatenate, in_, contains, not_, let
 
@@ -52,7 +52,11 @@ def _case(draw, tier):
             "select_form": draw(st.sampled_from(["entity", "entity", "set_of"])),
             # the membership test alone, or combined with another condition on the outer variable
             "combo": draw(st.sampled_from(["alone", "alone", "or_cond_first", "or_cond_first", "or_cond_last", "and_cond_first",
-                                           "and_cond_last", "not_and_cond_first"])),
+                                           "and_cond_last", "not_and_cond_first", "parent_cond_first", "parent_cond_first"])),
+            # (parent_cond_first: a condition on the PARENT variable comes first, so the concatenation is evaluated once per
+            # qualifying parent, over that parent's inner collection only - "preserving any outer bindings")
+            "parent_cond": ["cmp", draw(st.sampled_from([">=", "==", "<", "!="])), ["attr", ["var", 0], draw(st.sampled_from(["a", "b"]))],
+                            ["const", draw(st.sampled_from(PROFILES[cfg.profile]["ints"]))]],
             "other_cond": ["cmp", draw(st.sampled_from([">=", "==", "<"])), ["attr", ["var", 1], draw(st.sampled_from(["a", "b"]))],
                            ["const", draw(st.sampled_from(PROFILES[cfg.profile]["ints"]))]],
             "inner": inner, "form": draw(st.sampled_from(["in_", "contains"])), "negate": draw(st.booleans()),
@@ -90,6 +94,9 @@ def check(case) -> Outcome:
         m = member(oval(o)) != bool(case["negate"])
         if combo == "alone":
             return m
+        if combo == "parent_cond_first":
+            return any(A.eval_cond(case["parent_cond"], {0: p_}) and
+                       ((oval(o) in _inner(p_, case["inner"])) != bool(case["negate"])) for p_ in parents)
         c_ = A.eval_cond(case["other_cond"], {1: o})
         if combo.startswith("or_"):
             return c_ or m
@@ -148,7 +155,10 @@ def check(case) -> Outcome:
             cond = in_(item, c) if case["form"] == "in_" else contains(c, item)
             if case["negate"]:
                 cond = not_(cond) if case["neg_spelling"] == "not_" else ~cond
-            if combo != "alone":
+            if combo == "parent_cond_first":
+                from entity_query_language import and_
+                cond = and_(build_cond(case["parent_cond"], [V[0]]), cond)
+            elif combo != "alone":
                 from entity_query_language import and_, or_
                 oc = build_cond(case["other_cond"], [None, d])
                 if combo == "or_cond_first":
@@ -170,7 +180,7 @@ def check(case) -> Outcome:
         else:
             got = []
             for r in q.evaluate():
-                if not isinstance(r[c], (list, tuple)) or [ident((x,)) for x in r[c]] != ids:
+                if combo != "parent_cond_first" and (not isinstance(r[c], (list, tuple)) or [ident((x,)) for x in r[c]] != ids):
                     return fail("wrong_concatenation_in_row", f"set_of([d, concatenate(...)], ...) row for {r[d]!r} carries "
                                                               f"{r[c]!r}; expected {flat!r}", nontrivial=nontrivial,
                                 classes=classes, features=feats)
@@ -182,7 +192,9 @@ def check(case) -> Outcome:
         return fail("user_data_modified", "evaluating the membership query changed an attribute (or an inner collection) "
                                           "of a dataset object", nontrivial=nontrivial, classes=classes, features=feats)
     want = [(o,) for o in outer if holds(o)]
-    bad = compare_lists(want, got)
+    # (with the parent bound first the parent is a hidden variable of the result: one row per qualifying parent, in parent
+    # order - compared as a set, like any projection)
+    bad = compare_lists(want, got) if combo != "parent_cond_first" else compare_sets(want, got, False)
     if bad:
         return fail("membership_" + bad[0], f"{'not ' if case['negate'] else ''}{case['form']}(d{'' if ot == 'var' else '.' + ot}, "
                                             f"concatenate(p.{case['inner']})) with flat list {flat}: {bad[1]}",
